@@ -59,6 +59,19 @@ def run(ctx):
                 ctx.broken.append("extraction cross-check: Coq's vm_compute and the extracted OCaml model disagree on label kinds")
             ctx.extra["in_coq_cross_check_label_kinds"] = len(want)
 
+    # 1b. the secondary paths into the same logic: a refused key must not alter the (canonical) cell written afterwards, and
+    # the peek variant of load_dict must parse the CURRENT reference
+    from props import c09
+    for n in (1, 2, 4, 8, 64, 267):
+        for k in (-1, 1 << n, (1 << n) + 5):
+            r = core.call_impl(lambda _: c09.bad_key(n, k), None)
+            if r != "rejected":
+                ctx.fail("refused-key-alters-dictionary", f"key {k} in a {n}-bit map: {r}", {"badkey": [n, k]})
+    for _ in range(ctx.n(80, 800)):
+        r = core.call_impl(lambda _: c09.maybe_dict_case(rng), None)
+        if r != "ok":
+            ctx.fail("preload-dict-differs", r, {"maybe": r})
+            break
     # 2. canonical encoding: library cell == independent reference encoder
     dag0 = bs.pool_dag(rng, 3)
     nc = 0
